@@ -41,7 +41,7 @@ try:
         meta["demo_on_changed_tree"] = {"exit": r.returncode, "tail": (r.stdout + r.stderr).strip()[-300:]}
         det = {}
         for c in checks:
-            r = sh(f"cd /verif && VERIF_REPO={W} ./check {c} --tier quick")
+            r = sh(f"cd /verif && VERIF_REPO={W} timeout 1500 ./check {c} --tier quick")
             viol = [l for l in r.stdout.splitlines() if l.startswith("VIOLATION") or l.strip().startswith("signature=")]
             det[c] = {"exit": r.returncode, "violations": sum(1 for l in viol if l.startswith("VIOLATION")), "first_signatures": [l.strip() for l in viol if "signature=" in l][:3]}
         meta["checks_quick"] = det
